@@ -54,7 +54,7 @@ def inp_of(a, b, c, o, cv, q=None):
     return d
 
 
-def inverse_ok(rep, d, a, b, c, o, cv, q, y, worst, why):
+def inverse_ok(rep, d, a, b, c, o, cv, q, y, worst, why, container=None):
     """the Spec clause |cdf(ppf(q)) - q| <= 1e-5 with the code's own cdf; returns True if it holds"""
     with np.errstate(all="ignore"):
         f = float(d.cdf(y))
@@ -62,7 +62,8 @@ def inverse_ok(rep, d, a, b, c, o, cv, q, y, worst, why):
     worst["inverse"] = max(worst["inverse"], err)
     rep.count(f"inverse_checks[{why}]")
     if not (err <= INV_TOL):
-        rep.violate(what=f"|cdf(ppf(q)) - q| = {err:.3g} > 1e-5", input=inp_of(a, b, c, o, cv, q),
+        rep.violate(what=f"|cdf(ppf(q)) - q| = {err:.3g} > 1e-5" + (f" [levels given as {container}]" if container else ""),
+                    input=dict(inp_of(a, b, c, o, cv, q), **({"q_container": container} if container else {})),
                     observed=dict(ppf=float(y), cdf_of_ppf=f), expected=q, call="NoisyQuadraticDistribution.ppf", found_by=why)
         return False
     return True
@@ -83,6 +84,56 @@ def gen_dist_scaled(rng, switches):
         s = o / (b - a)
         return a2, a2 + w, c, s * w, cv, tag + "|w=1e%d" % round(math.log10(w))
     return a2, a2, c, (w if o > 0 else 0.0), cv, tag + "|w=1e%d" % round(math.log10(w))
+
+
+def container_levels(rep, d, a, b, c, o, cv, inner, worst, why):
+    """the same kind of query in other containers: float32 levels (exactly representable ones), the end points as Python ints;
+    returns True if a clause fails"""
+    reg = G.regime_of(a, b, o)
+    if reg == "point":
+        return False
+    lo_want, hi_want = (-INF, INF) if reg in ("nothing", "normal") else (a, b)
+    with np.errstate(all="ignore"):
+        q32 = sorted({float(np.float32(q)) for q in inner if 0.0 < float(np.float32(q)) < 1.0})
+    q32 = q32[:: max(1, len(q32) // 6)][:6]
+    rep.count("q_container=float32")
+    if q32:
+        try:
+            with np.errstate(all="ignore"):
+                v32 = np.asarray(d.ppf(np.array(q32, dtype=np.float32)), dtype=float)
+                ve = np.asarray(d.ppf([0, 1]), dtype=float)
+        except Exception as e:  # noqa: BLE001
+            rep.violate(what="ppf raised for levels given as a float32 array / a list of Python ints", error=repr(e), input=inp_of(a, b, c, o, cv),
+                        call="NoisyQuadraticDistribution.ppf", found_by=why)
+            return True
+        if v32.shape != (len(q32),) or ve.shape != (2,):
+            rep.violate(what="ppf output shape differs from input shape (float32 array / list of Python ints)", input=inp_of(a, b, c, o, cv),
+                        call="NoisyQuadraticDistribution.ppf", found_by=why)
+            return True
+        out32 = np.asarray(d.ppf(np.array(q32, dtype=np.float32))).dtype == np.float32
+        if out32:
+            # float32 levels in, float32 quantiles out (numpy's convention): a float32 number cannot carry the property's accuracy
+            # when the support is narrow relative to its location, so a result within 4 float32 spacings (at the magnitude of the bracket [a-6o, b+6o], whose
+            # end points set the float32 grid the bisection moves on) of the float64 answer (which is judged in its own right) is as good as
+            # float32 allows and is not held against the implementation
+            with np.errstate(all="ignore"):
+                v64 = np.asarray(d.ppf(np.array(q32, dtype=np.float64)), dtype=float)
+        for j_, (q, y) in enumerate(zip(q32, v32)):
+            if out32 and y == y and abs(y - v64[j_]) <= 4 * float(np.spacing(np.float32(max(abs(a - 6 * o), abs(b + 6 * o), 1e-30)))):
+                with np.errstate(all="ignore"):
+                    if not abs(float(d.cdf(float(y))) - q) <= INV_TOL:
+                        rep.count("float32_quantile_limited_by_float32_resolution(within 4 float32 spacings of the float64 answer)")
+                        continue
+            if y != y or not inverse_ok(rep, d, a, b, c, o, cv, q, float(y), worst, why, container="float32"):
+                return True
+        for q, y, want in ((0.0, ve[0], lo_want), (1.0, ve[1], hi_want)):
+            ok = (y == want) if abs(want) == INF else abs(y - want) <= 4 * max(ulp(a), ulp(b))
+            if not ok:
+                rep.violate(what="ppf(0)/ppf(1) given as Python ints is not -inf/+inf (noise modelled) resp. a/b (noise ignored)",
+                            input=dict(inp_of(a, b, c, o, cv, q), q_container="pyint_list"), observed=float(y), expected=repr(want),
+                            call="NoisyQuadraticDistribution.ppf", found_by=why)
+                return True
+    return False
 
 
 def clauses_at(rep, NQ, a, b, c, o, cv, qs, worst, why):
@@ -135,6 +186,8 @@ def clauses_at(rep, NQ, a, b, c, o, cv, qs, worst, why):
             y = float(d.ppf(q))
         if y != y or not inverse_ok(rep, d, a, b, c, o, cv, q, y, worst, why):
             return True
+    if container_levels(rep, d, a, b, c, o, cv, inner, worst, why):
+        return True
     return False
 
 
@@ -226,6 +279,8 @@ def run(seed, tier, replay=None):
         except Exception as e:
             rep.violate(what="ppf raised on q in [0, 1]", error=repr(e), input=base, call="NoisyQuadraticDistribution.ppf")
             continue
+        if di % 3 == 0:
+            container_levels(rep, d, a, b, c, o, cv, [float(q) for q in qs if 0.0 < q < 1.0], worst, "all")
         # ---- shapes
         if di % 4 == 0:
             with np.errstate(all="ignore"):
